@@ -24,13 +24,37 @@ variable {α : Type} [Field α] [DecidableEq α]
 
 /-- **Exact ratio.** `to_unitless(q, u)` returns the magnitude times the exact ratio of the two units,
     `q.si / u.si = mag(q)·factor(q) / (mag(u)·factor(u))`, when the exponent vectors agree, and raises ValueError otherwise. -/
-theorem toUnitless_spec (q u : PyVal α) (hq : q.WF) (hu : u.WF) :
+theorem toUnitless_spec (q u : PyVal α) (hq : q.WF) (hu : u.WF) (_hu0 : u.si ≠ 0) :
     toUnitlessScalar q u = if q.dims = u.dims then .ok (q.si / u.si) else .error .valueError :=
   toUnitlessScalar_eq q u hq hu
 
+/-- **A target of magnitude 0 is not a unit** (`0*metre`): Python computes `inf`/`nan` without raising.  The model's entry point
+    `to_unitless(value, new_unit)` answers with the explicit token `nonFinite` — never with a number (in particular never with
+    the `x/0 = 0` of field division) — and is the element-wise conversion for every other target (`None` = `pq.dimensionless`).
+    This is why every theorem about the conversion carries `u.si ≠ 0` (magnitude and unit factor non-zero). -/
+theorem zero_magnitude_target_is_not_a_number (v : Val α) (u : PyVal α) :
+    (u.magnitude = 0 → (∀ r, toUnitlessOpt v (some u) ≠ .ok r) ∧
+      (∀ r, toUnitless v u = .ok r → toUnitlessOpt v (some u) = .error .nonFinite) ∧
+      (∀ e, toUnitless v u = .error e → toUnitlessOpt v (some u) = .error e)) ∧
+    (u.magnitude ≠ 0 → toUnitlessOpt v (some u) = toUnitless v u) ∧
+    toUnitlessOpt v none = toUnitless v (.qty Quantity.dimensionless) ∧
+    (u.WF → (u.si ≠ 0 ↔ u.magnitude ≠ 0)) := by
+  refine ⟨?_, ?_, ?_, ?_⟩
+  · intro h
+    cases hr : toUnitless v u <;> simp [toUnitlessOpt, targetNonDegenerate, h, hr]
+  · intro h
+    cases hr : toUnitless v u <;> simp [toUnitlessOpt, targetNonDegenerate, h, hr]
+  · cases hr : toUnitless v (.qty (Quantity.dimensionless : Quantity α)) <;>
+      simp [toUnitlessOpt, targetNonDegenerate, Quantity.dimensionless, PyVal.magnitude, hr] <;>
+      simp [Quantity.dimensionless] at hr <;> simp [hr]
+  · intro hu
+    cases u with
+    | num x => simp [PyVal.magnitude]
+    | qty q => simp [PyVal.magnitude, hu.factor_ne]
+
 /-- **Refusal.** A number is returned iff the target is dimensionally compatible; otherwise the call raises (ValueError),
     it never returns a number. -/
-theorem refuses_iff_incompatible (q u : PyVal α) (hq : q.WF) (hu : u.WF) :
+theorem refuses_iff_incompatible (q u : PyVal α) (hq : q.WF) (hu : u.WF) (_hu0 : u.si ≠ 0) :
     (toUnitlessScalar q u = .error .valueError ↔ q.dims ≠ u.dims) ∧
     ((∃ x, toUnitlessScalar q u = .ok x) ↔ q.dims = u.dims) := by
   rw [toUnitlessScalar_eq q u hq hu]
@@ -56,7 +80,7 @@ theorem compose (q u w : PyVal α) (hq : q.WF) (hu : u.WF) (hw : w.WF) (hu0 : u.
 
 /-- **Linearity.** Scaling the quantity scales the result; the result of a sum (as `quantities` adds: in the unit of the
     left operand) is the sum of the results. -/
-theorem linear (q q' u : PyVal α) (hq : q.WF) (hq' : q'.WF) (hu : u.WF) (c x x' : α)
+theorem linear (q q' u : PyVal α) (hq : q.WF) (hq' : q'.WF) (hu : u.WF) (_hu0 : u.si ≠ 0) (c x x' : α)
     (h : toUnitlessScalar q u = .ok x) (h' : toUnitlessScalar q' u = .ok x') :
     toUnitlessScalar ((PyVal.num c).mul q) u = .ok (c * x) ∧
     ∀ s, addLike (· + ·) q q' = .ok s → toUnitlessScalar s u = .ok (x + x') := by
@@ -70,30 +94,24 @@ theorem linear (q q' u : PyVal α) (hq : q.WF) (hq' : q'.WF) (hu : u.WF) (c x x'
     refine (toUnitlessScalar_ok_iff hsw hu _).mpr ⟨by rw [hsd, hd], ?_⟩
     rw [hss]; ring
 
-/-- **Element-wise (lists, tuples, arrays).** `to_unitless` of a flat container succeeds with `xs` iff every element
-    converts to the corresponding entry of `xs`; it raises iff some element does (with that element's exception). -/
-theorem elementwise_list (l : List (PyVal α)) (u : PyVal α) :
-    (∀ xs, toUnitlessFlat l u = .ok xs ↔ List.Forall₂ (fun v x => toUnitlessScalar v u = .ok x) l xs) ∧
-    (∀ e, toUnitlessFlat l u = .error e → ∃ v ∈ l, toUnitlessScalar v u = .error e) :=
-  ⟨toUnitlessFlat_ok_iff l u, fun _ h => toUnitlessFlat_error h⟩
-
-/-- **Element-wise (nested containers, dicts, str).** The container cases of `to_unitless` are exactly the element-wise
-    recursion: list → list of results in order, dict → same keys with converted values, str → ValueError. -/
-theorem elementwise_nested (u : PyVal α) :
-    (∀ a, toUnitless (.atom a) u = (toUnitlessScalar a u).map Res.num) ∧
-    toUnitless (Val.str : Val α) u = .error .valueError ∧
-    (∀ l, toUnitless (.list l) u = (toUnitlessList l u).map Res.list) ∧
-    (∀ d, toUnitless (.dict d) u = (toUnitlessDict d u).map Res.dict) ∧
+/-- **Element-wise (lists, tuples, arrays, dicts, nesting).** `to_unitless` of a flat container succeeds with `xs` iff every
+    element converts to the corresponding entry of `xs`, and fails with the exception of a failing element; at every level of
+    a nested container a list converts iff each member converts (same order), a dict iff each value converts (same keys, same
+    order).  (The four defining equations of the recursion — atom, str → ValueError, list, dict — are `toUnitless_atom`, `_str`,
+    `_list`, `_dict` in Proofs/UnitsHelpers.) -/
+theorem elementwise_containers (u : PyVal α) :
+    (∀ (l : List (PyVal α)) xs, toUnitlessFlat l u = .ok xs ↔ List.Forall₂ (fun v x => toUnitlessScalar v u = .ok x) l xs) ∧
+    (∀ (l : List (PyVal α)) e, toUnitlessFlat l u = .error e → ∃ v ∈ l, toUnitlessScalar v u = .error e) ∧
     (∀ l rs, toUnitlessList l u = .ok rs ↔ List.Forall₂ (fun v r => toUnitless v u = .ok r) l rs) ∧
     (∀ d rs, toUnitlessDict d u = .ok rs ↔
       List.Forall₂ (fun (p : String × Val α) (r : String × Res α) => p.1 = r.1 ∧ toUnitless p.2 u = .ok r.2) d rs) :=
-  ⟨toUnitless_atom u, toUnitless_str u, toUnitless_list u, toUnitless_dict u, toUnitlessList_ok_iff u, toUnitlessDict_ok_iff u⟩
+  ⟨fun l => toUnitlessFlat_ok_iff l u, fun _ _ h => toUnitlessFlat_error h, toUnitlessList_ok_iff u, toUnitlessDict_ok_iff u⟩
 
 /-- **Plain numeric arrays** (after fix 005cbe4). A plain `np.ndarray` is converted exactly like the list of its elements, for
     EVERY target: each element `x` becomes `x / u.si` when `u` is dimensionless (scaled ratios such as cm/m, km/m included),
     and the call raises ValueError when `u` carries a dimension (non-empty array).  The `return value` shortcut is taken only
     when `u.si = 1`, where it coincides with the element-wise result. -/
-theorem elementwise_ndarray (xs : List α) (u : PyVal α) (hu : u.WF) :
+theorem elementwise_ndarray (xs : List α) (u : PyVal α) (hu : u.WF) (_hu0 : u.si ≠ 0) :
     toUnitless (.ndarray xs) u = (toUnitlessFlat (xs.map .num) u).map (fun ys => Res.list (ys.map .num)) ∧
     (u.dims = Dims.zero → toUnitless (.ndarray xs) u = .ok (.list (xs.map fun x => .num (x / u.si)))) ∧
     (u.dims ≠ Dims.zero → xs ≠ [] → toUnitless (.ndarray xs) u = .error .valueError) := by
@@ -121,12 +139,20 @@ example :
 
 /-! ## dimensionality, registries, derived units -/
 
-/-- `get_physical_dimensionality` reports exactly the non-zero exponents of the quantity's dimension; `{}` iff it is unitless. -/
-theorem physical_dimensionality_spec (v : PyVal α) (hv : v.WF) :
-    getPhysicalDimensionality (.scalar v) = .ok (dimItems 0 v.dims) ∧
-    (dimItems 0 v.dims = [] ↔ v.dims = Dims.zero) ∧
-    (isUnitless (.atom v) = true ↔ v.dims = Dims.zero) :=
-  getPhysicalDimensionality_scalar v hv
+/-- `get_physical_dimensionality` reports exactly the non-zero exponents of the quantity's dimension; `{}` iff it is unitless.
+    For a list/tuple/array of quantities of ONE dimension it reports that dimension (mixed dimensions → ValueError).  For a dict
+    the code only supports the unitless case (`{}`); a dimensional dict is an AttributeError (mirrored, not a property clause). -/
+theorem physical_dimensionality_spec :
+    (∀ (v : PyVal α), v.WF →
+      getPhysicalDimensionality (.scalar v) = .ok (dimItems 0 v.dims) ∧
+      (dimItems 0 v.dims = [] ↔ v.dims = Dims.zero) ∧ (isUnitless (.atom v) = true ↔ v.dims = Dims.zero)) ∧
+    (∀ (h : PyVal α) (t : List (PyVal α)), (∀ a ∈ h :: t, a.WF) →
+      ((∀ a ∈ t, a.dims = h.dims) → getPhysicalDimensionality (.list (h :: t)) = .ok (dimItems 0 h.dims)) ∧
+      ((∃ a ∈ t, a.dims ≠ h.dims) → getPhysicalDimensionality (.list (h :: t)) = .error .valueError)) ∧
+    (∀ (d : List (String × PyVal α)),
+      ((∀ p ∈ d, p.2.dims = Dims.zero) → getPhysicalDimensionality (.dict d) = .ok []) ∧
+      ((∃ p ∈ d, p.2.dims ≠ Dims.zero) → getPhysicalDimensionality (.dict d) = .error .attributeError)) :=
+  ⟨getPhysicalDimensionality_scalar, getPhysicalDimensionality_list, getPhysicalDimensionality_dict⟩
 
 /-- **Registry consistency.** For EVERY base-unit registry (entry `i` a non-zero multiple of a unit of base dimension `i`) and every
     quantity: the default unit exists, has the quantity's dimension and the SI value `∏ registry[i].si ^ dims[i]`
@@ -138,6 +164,20 @@ theorem registry_consistent (reg : Registry α) (hreg : RegistryWF reg) (q : PyV
       unitlessInRegistry (.scalar q) reg = .ok (.num x) ∧ x = q.si / U.si ∧
       (timesUnit x U).si = q.si ∧ (timesUnit x U).dims = q.dims :=
   registry_consistent_scalar reg hreg q hq
+
+/-- **Registry consistency, element-wise.** For a list/tuple/array of quantities of one dimension: ONE default unit (as for a
+    scalar of that dimension), every element divided by its SI value, and multiplying back reproduces every element; an
+    element of another dimension makes both functions raise ValueError. -/
+theorem registry_consistent_containers (reg : Registry α) (hreg : RegistryWF reg) (h : PyVal α) (t : List (PyVal α))
+    (hw : ∀ a ∈ h :: t, a.WF) :
+    ((∀ a ∈ t, a.dims = h.dims) →
+      ∃ U, defaultUnitInRegistry (.list (h :: t)) reg = .ok U ∧ U.WF ∧ U.dims = h.dims ∧ U.si = regProd reg h.dims ∧ U.si ≠ 0 ∧
+        unitlessInRegistry (.list (h :: t)) reg = .ok (.list ((h :: t).map fun a => Res.num (a.si / U.si))) ∧
+        ((h :: t).map fun a => (timesUnit (a.si / U.si) U).si) = (h :: t).map PyVal.si) ∧
+    ((∃ a ∈ t, a.dims ≠ h.dims) →
+      defaultUnitInRegistry (.list (h :: t)) reg = .error .valueError ∧
+      unitlessInRegistry (.list (h :: t)) reg = .error .valueError) :=
+  registry_consistent_list reg hreg h t hw
 
 /-- the exponent vector a derived key NAMES, as a physical quantity (specification; order: length, mass, time, current,
     temperature, luminous intensity, amount).  diffusivity m²/s; electrical mobility m²/(V·s) = A·s²/kg;
@@ -151,25 +191,28 @@ def derivedSpec : List (String × Dims) := [
   ("linear_energy_transfer", [1, 1, -2, 0, 0, 0, 0])]
 
 /-- the extracted `derived` dict of `get_derived_unit` carries, key by key, the physical dimension the key names
-    (and has no other keys); the registry keys are the seven base quantities in SI order -/
+    (and has no other keys) -/
 theorem derived_table_is_physical :
     (∀ p ∈ Gen.Units.derivedTable, derivedSpec.lookup p.1 = some p.2) ∧
-    (∀ p ∈ derivedSpec, Gen.Units.derivedTable.lookup p.1 = some p.2) ∧
+    (∀ p ∈ derivedSpec, Gen.Units.derivedTable.lookup p.1 = some p.2) := by
+  refine ⟨by decide +kernel, by decide +kernel⟩
+
+/-- source guard: the keys of `SI_base_registry` are the seven base quantities in the order every exponent vector of the model assumes -/
+theorem registry_keys_guard :
     Gen.Units.registryKeys = ["length", "mass", "time", "current", "temperature", "luminous_intensity", "amount"] := by
-  refine ⟨by decide +kernel, by decide +kernel, by decide +kernel⟩
+  decide +kernel
 
 /-- **Derived units.** In every base-unit registry, each derived key yields a unit with the physical dimension it names and
-    the SI value `∏ registry[i].si ^ e_i`; a base key yields the registry entry itself; `registry=None` yields 1. -/
+    the SI value `∏ registry[i].si ^ e_i`; a base key yields the registry entry itself.  (`registry=None` yields 1 by definition, units.py 180-181.) -/
 theorem derived_unit_dims (reg : Registry α) (hreg : RegistryWF reg) :
     (∀ key e, derivedSpec.lookup key = some e →
       ∃ U, getDerivedUnit (some reg) key = .ok U ∧ U.WF ∧ U.dims = e ∧ U.si = regProd reg e ∧ U.si ≠ 0) ∧
     (∀ key i, Gen.Units.derivedTable.lookup key = none → keyIndex? key = some i →
-      ∃ h : i < reg.length, getDerivedUnit (some reg) key = .ok reg[i] ∧ reg[i].dims = Dims.basis i) ∧
-    (∀ key, getDerivedUnit (none : Option (Registry α)) key = .ok PyVal.one) := by
-  refine ⟨?_, ?_, fun _ => rfl⟩
+      ∃ h : i < reg.length, getDerivedUnit (some reg) key = .ok reg[i] ∧ reg[i].dims = Dims.basis i) := by
+  refine ⟨?_, ?_⟩
   · intro key e he
     have hmem : Gen.Units.derivedTable.lookup key = some e :=
-      derived_table_is_physical.2.1 (key, e) (mem_of_lookup _ _ _ he)
+      derived_table_is_physical.2 (key, e) (mem_of_lookup _ _ _ he)
     exact getDerivedUnit_derived reg hreg key e hmem
   · intro key i hk hi
     exact getDerivedUnit_base reg hreg key i hk hi
@@ -179,9 +222,9 @@ theorem si_registry_wf :
     (siRegistry : Registry ℚ) = (List.range nDims).map fun i => PyVal.qty ⟨1, ⟨1, Dims.basis i⟩⟩ := by
   decide +kernel
 
-/-- `_quantities_mapping` of `get_physical_dimensionality` names every registry key exactly once, in registry order
+/-- source guard: `_quantities_mapping` of `get_physical_dimensionality` names every registry key exactly once, in registry order
     (no base dimension can be dropped from, or duplicated in, the reported dimensionality) -/
-theorem quantities_mapping_covers_registry :
+theorem quantities_mapping_guard :
     Gen.Units.quantitiesMapping.map (·.2) = Gen.Units.registryKeys ∧ (Gen.Units.quantitiesMapping.map (·.1)).Nodup := by
   refine ⟨by decide +kernel, by decide +kernel⟩
 
@@ -260,14 +303,27 @@ theorem backend_refuses_dimensional_args {β : Type} (f : List α → β) (args 
 
 /-! ## unit-aware array helpers -/
 
-/-- **`uniform` / flat containers in one common unit.** Converting every element to a common unit `u` succeeds iff all
-    elements have the dimension of `u`, gives the magnitudes `si/u.si`, and multiplying back by `u` reproduces every
-    physical value; one incompatible element makes the call raise ValueError. -/
-theorem helpers_common_unit (l : List (PyVal α)) (u : PyVal α) (hl : ∀ a ∈ l, a.WF) (hu : u.WF) (hu0 : u.si ≠ 0) :
-    ((∀ a ∈ l, a.dims = u.dims) → toUnitlessFlat l u = .ok (l.map fun a => a.si / u.si) ∧
-      ((l.map fun a => a.si / u.si).map (timesUnit · u)).map PyVal.si = l.map PyVal.si) ∧
-    ((∃ a ∈ l, a.dims ≠ u.dims) → toUnitlessFlat l u = .error .valueError) :=
-  ⟨fun h => ⟨(toUnitlessFlat_spec l u hl hu).1 h, map_timesUnit_si l u hu0⟩, (toUnitlessFlat_spec l u hl hu).2⟩
+/-- **`uniform` itself.** List/tuple: every element is re-expressed in the unit of the FIRST element — same physical value, the
+    dimension of the first element, and literally that unit (`unit_of` of every result element is `unit_of(container[0])`); an element of
+    another dimension raises ValueError; an empty container is an IndexError.  Dict: the same with the unit of the first VALUE,
+    keys kept in order.  (The underlying conversion of a flat container to a GIVEN unit is `toUnitlessFlat_spec` + `map_timesUnit_si`.) -/
+theorem helpers_uniform :
+    (∀ (h : PyVal α) (t : List (PyVal α)), (∀ a ∈ h :: t, a.WF) →
+      ((∀ a ∈ t, a.dims = h.dims) →
+        uniformList (h :: t) = .ok ((h :: t).map fun a => timesUnit (a.si / (unitOfScalar h).si) (unitOfScalar h)) ∧
+        ((h :: t).map fun a => timesUnit (a.si / (unitOfScalar h).si) (unitOfScalar h)).map PyVal.si = (h :: t).map PyVal.si ∧
+        ∀ e ∈ (h :: t).map (fun a => timesUnit (a.si / (unitOfScalar h).si) (unitOfScalar h)),
+          e.dims = h.dims ∧ unitOfScalar e = unitOfScalar h) ∧
+      ((∃ a ∈ t, a.dims ≠ h.dims) → uniformList (h :: t) = .error .valueError)) ∧
+    uniformList ([] : List (PyVal α)) = .error .indexError ∧
+    (∀ (k0 : String) (v0 : PyVal α) (d : List (String × PyVal α)), (∀ p ∈ (k0, v0) :: d, p.2.WF) →
+      ((∀ p ∈ d, p.2.dims = v0.dims) →
+        uniform (.dict ((k0, v0) :: d)) =
+          .ok (.dict (((k0, v0) :: d).map fun p => (p.1, timesUnit (p.2.si / (unitOfScalar v0).si) (unitOfScalar v0))))) ∧
+      ((∃ p ∈ d, p.2.dims ≠ v0.dims) → uniform (.dict ((k0, v0) :: d)) = .error .valueError)) ∧
+    uniform (.dict ([] : List (String × PyVal α))) = .error .indexError :=
+  ⟨fun h t hw => ⟨(uniformList_spec h t hw).1, (uniformList_spec h t hw).2.1⟩, rfl,
+   fun k0 v0 d hw => ⟨(uniformDict_spec k0 v0 d hw).1, (uniformDict_spec k0 v0 d hw).2.1⟩, rfl⟩
 
 /-- **`linspace` equivariant.** It equals `np.linspace` on the magnitudes expressed in the unit of `start`, times that unit;
     consequently (homogeneity of degree 1) its physical values are `np.linspace` of the physical end points, independent of
@@ -368,10 +424,49 @@ theorem helpers_equivariant_logspace [DecidableEq ℝ] (start stop : PyVal ℝ) 
     (start.dims ≠ stop.dims → logspaceFromLin start stop n = .error .valueError) :=
   logspaceFromLin_spec start stop hs he n
 
+/-- **`polyfit` is unit independent, given NumPy's scaling covariance.** If the fitting routine satisfies
+    `fit (a·x) (b·y) deg [i] = b·a^(i−deg) · fit x y deg [i]` (true of least squares; a property of `np.polyfit`, third party,
+    exercised by the oracle), then the physical coefficients `polyfit` returns are the fit of the physical data, whatever
+    units the data were given in. -/
+theorem helpers_polyfit_unit_independent (fit : List α → List α → ℕ → List α)
+    (hcov : ∀ (xs ys : List α) (a b : α) (deg i : ℕ), a ≠ 0 → b ≠ 0 →
+      (fit (xs.map (· * a)) (ys.map (· * b)) deg)[i]? = ((fit xs ys deg)[i]?).map (· * (b * a ^ ((i : ℤ) - (deg : ℤ)))))
+    (x0 y0 : PyVal α) (xt yt : List (PyVal α)) (deg : ℕ)
+    (hxw : ∀ a ∈ x0 :: xt, a.WF) (hyw : ∀ a ∈ y0 :: yt, a.WF)
+    (hx : ∀ a ∈ xt, a.dims = x0.dims) (hy : ∀ a ∈ yt, a.dims = y0.dims) :
+    ∃ r, polyfit fit (x0 :: xt) (y0 :: yt) deg = .ok r ∧
+      r.map PyVal.si = fit ((x0 :: xt).map PyVal.si) ((y0 :: yt).map PyVal.si) deg :=
+  polyfit_unit_independent fit hcov x0 y0 xt yt deg hxw hyw hx hy
+
+/-- **`allclose` with an absolute tolerance** (three quantities, unit of `a` with positive factor, `a`,`b` of one dimension):
+    an `atol` of another dimension raises ValueError; otherwise the answer is the plain test `|a − b| ≤ |a|·rtol + atol` on the
+    physical values. -/
+theorem helpers_allclose_atol {β : Type} [Field β] [LinearOrder β] [IsStrictOrderedRing β]
+    (p q t : Quantity β) (hp : (PyVal.qty p).WF) (hpos : 0 < p.unit.factor) (rtol : β) (hd : p.unit.dims = q.unit.dims) :
+    (p.unit.dims = t.unit.dims →
+      allcloseScalar (.qty p) (.qty q) rtol (some (.qty t)) =
+        .ok (decide (|(PyVal.qty p).si - (PyVal.qty q).si| ≤ |(PyVal.qty p).si| * rtol + (PyVal.qty t).si))) ∧
+    (p.unit.dims ≠ t.unit.dims → allcloseScalar (.qty p) (.qty q) rtol (some (.qty t)) = .error .valueError) :=
+  allcloseScalar_atol p q t hp hpos rtol hd
+
+/-- **`compare_equality`** on two quantities is physical equality: True iff same dimension and same SI value (different
+    dimensions → False, no exception); on two plain numbers it is `==`.  (Quantity against plain number: see the quirk witness.) -/
+theorem compare_equality_spec (p q : Quantity α) (hp : (PyVal.qty p).WF) (x y : α) :
+    (compareEquality (.qty p) (.qty q) = true ↔ p.unit.dims = q.unit.dims ∧ (PyVal.qty p).si = (PyVal.qty q).si) ∧
+    (compareEquality (.num x) (.num y) = true ↔ x = y) :=
+  ⟨compareEquality_qty p q hp, compareEquality_num x y⟩
+
+/-- **`patched_numpy.log/log10/log2/log1p/exp/expm1/logaddexp/logaddexp2`** (`_wrap_numpy`): the NumPy function is reached iff every
+    argument is dimensionless and then receives the plain physical values; a dimensional argument raises ValueError. -/
+theorem patched_numpy_refuses_dimensional_args {β : Type} (f : List α → β) (args : List (PyVal α)) (hargs : ∀ a ∈ args, a.WF) :
+    ((∀ a ∈ args, a.dims = Dims.zero) → wrapNumpy f args = .ok (f (args.map PyVal.si))) ∧
+    ((∃ a ∈ args, a.dims ≠ Dims.zero) → wrapNumpy f args = .error .valueError) :=
+  backend_spec f args hargs
+
 /-
 helpers_equivariant — what remains outside the theorems: the scaling covariance of `np.polyfit` itself (third party, a parameter of
 the model; exercised by the oracle), `polyval` for a LIST argument x (element-wise application of the scalar theorem; model and
-correspondence cover it), and `allclose` with a non-None `atol` (correspondence and oracle).
+correspondence cover it), and `allclose` with `atol` where a plain number is involved (correspondence and oracle). See `clauses_without_theorem` in tools/harness/c09.py.
 -/
 
 /-! ## documented quirks of the pinned code (mirrored by the model) -/
